@@ -13,7 +13,7 @@ from pathlib import Path
 import numpy as np
 import yaml
 
-from mc import drive, util, world
+from mc import drive, scriptrng, util, world
 
 ID = "C18"
 LEVEL = "model_checking"
@@ -231,15 +231,7 @@ def to_toml(c):
     return "\n".join(lines) + "\n"
 
 
-class Scripted:
-    def __init__(self):
-        self.calls = 0
-
-    def normal(self, *a, size=None, **kw):
-        if a or kw or size is None:
-            raise util.HarnessError("unexpected rng call")
-        self.calls += 1
-        return np.array([0.3 * (-1) ** (i + self.calls) * (1 + 0.1 * ((i * 7 + self.calls * 3) % 5)) for i in range(size)])
+Scripted = scriptrng.Pattern  # deterministic values along the stream of drawn scalars (the same for every rendering)
 
 
 def norm_config(cfg):
